@@ -88,7 +88,10 @@ struct ExecVerdict {
     labels: Vec<String>,
 }
 
-fn one_execution(idx: Idx, start_kind: Start, ops: &[Op], ch: &mut Chooser) -> ExecVerdict {
+/// `variant`: storage configuration variant (see vdb::fixture::db_config); set on the
+/// executing thread, because the explorer runs executions on its own worker threads.
+fn one_execution(idx: Idx, start_kind: Start, variant: u8, ops: &[Op], ch: &mut Chooser) -> ExecVerdict {
+    vdb::fixture::set_config_variant(variant);
     let live = conc::open_live_at(idx, start_kind);
     let coll = live.fx.coll.clone();
     let out = conc::run_ops(&live, &coll, ops, ch, 4000);
@@ -139,7 +142,8 @@ fn main() {
         let choices: Vec<u32> = serde_json::from_value(v["replay"]["choices"].clone()).expect("choices");
         let mut ch = Chooser::new(choices.clone());
         let start_kind: Start = v["replay"].get("start").and_then(|s| serde_json::from_value(s.clone()).ok()).unwrap_or(Start::Two);
-        let verdict = one_execution(idx, start_kind, &ops, &mut ch);
+        let variant = v["replay"].get("config").and_then(|c| c.as_u64()).unwrap_or(0) as u8;
+        let verdict = one_execution(idx, start_kind, variant, &ops, &mut ch);
         if let Some(d) = ch.diverged {
             vcore::report::machinery(&format!("replay diverged: {d}"));
         }
@@ -159,23 +163,26 @@ fn main() {
     // (set size, preemption bound)
     // (family, start state, alphabet, set size, preemption bound)
     let main_plan: Vec<(usize, u32)> = run.tier.pick(vec![(2, 2), (3, 1)], vec![(2, 3), (3, 2), (4, 1), (3, 3), (2, 4), (4, 2)]);
-    let mut plan: Vec<(&str, Start, Vec<Op>, usize, u32)> = main_plan.iter().map(|(k, b)| ("main", Start::Two, alpha.clone(), *k, *b)).collect();
+    let mut plan: Vec<(&str, Start, Vec<Op>, usize, u32, u8)> = main_plan.iter().map(|(k, b)| ("main", Start::Two, alpha.clone(), *k, *b, 0u8)).collect();
     if property == "C05" {
         // calls on the id a concurrent add is about to receive (ids are sequential, the next one is 3)
         let fresh = vec![Op::Add(3), Op::Add(5), Op::Remove(3), Op::Update(3, 0), Op::Get(3), Op::Flush, Op::Remove(3)];
         // adds straddling the allocation-watermark stride: 65 flushed documents, the next id (66) is the
         // first one above the published watermark; Add(101) is rejected in the index phase (unique name of document 1)
         let stride = vec![Op::Add(101), Op::Add(3), Op::Add(5), Op::Add(102), Op::Remove(66), Op::Flush];
-        let extra: Vec<(&str, Start, Vec<Op>, usize, u32)> = run.tier.pick(
-            vec![("fresh-id", Start::Two, fresh.clone(), 2, 2), ("fresh-id", Start::Two, fresh.clone(), 3, 1), ("watermark-stride", Start::Bulk64, stride.clone(), 2, 2), ("watermark-stride", Start::Bulk64, stride.clone(), 3, 1)],
-            vec![("fresh-id", Start::Two, fresh.clone(), 2, 3), ("fresh-id", Start::Two, fresh.clone(), 3, 2), ("fresh-id", Start::Two, fresh.clone(), 4, 1), ("watermark-stride", Start::Bulk64, stride.clone(), 2, 3), ("watermark-stride", Start::Bulk64, stride.clone(), 3, 2), ("watermark-stride", Start::Bulk64, stride.clone(), 4, 1)],
+        // storage configuration variants: 1 = zstd + cache disabled, 2 = zstd + a 300-byte cache (constant eviction)
+        let extra: Vec<(&str, Start, Vec<Op>, usize, u32, u8)> = run.tier.pick(
+            vec![("fresh-id", Start::Two, fresh.clone(), 2, 2, 0), ("fresh-id", Start::Two, fresh.clone(), 3, 1, 0), ("watermark-stride", Start::Bulk64, stride.clone(), 2, 2, 0), ("watermark-stride", Start::Bulk64, stride.clone(), 3, 1, 0),
+                 ("main/cache-disabled", Start::Two, alpha.clone(), 2, 1, 1), ("main/tiny-cache", Start::Two, alpha.clone(), 2, 1, 2), ("fresh-id/tiny-cache", Start::Two, fresh.clone(), 2, 2, 2)],
+            vec![("fresh-id", Start::Two, fresh.clone(), 2, 3, 0), ("fresh-id", Start::Two, fresh.clone(), 3, 2, 0), ("fresh-id", Start::Two, fresh.clone(), 4, 1, 0), ("watermark-stride", Start::Bulk64, stride.clone(), 2, 3, 0), ("watermark-stride", Start::Bulk64, stride.clone(), 3, 2, 0), ("watermark-stride", Start::Bulk64, stride.clone(), 4, 1, 0),
+                 ("main/cache-disabled", Start::Two, alpha.clone(), 2, 3, 1), ("main/tiny-cache", Start::Two, alpha.clone(), 2, 3, 2), ("main/cache-disabled", Start::Two, alpha.clone(), 3, 1, 1), ("main/tiny-cache", Start::Two, alpha.clone(), 3, 1, 2), ("fresh-id/tiny-cache", Start::Two, fresh.clone(), 3, 2, 2)],
         );
         // small families first: they are cheap and must not be starved by the main alphabet
         plan = extra.into_iter().chain(plan).collect();
     }
     let mut completed: Vec<String> = Vec::new();
     let mut outcome_kinds = std::collections::BTreeSet::new();
-    'plan: for (family, start_kind, alpha, k, bound) in plan {
+    'plan: for (family, start_kind, alpha, k, bound, variant) in plan {
         let sets = subsets(alpha.len(), k);
         struct SetOut {
             ops: Vec<Op>,
@@ -196,8 +203,8 @@ fn main() {
                 return so;
             }
             // determinism self-check: the default schedule twice
-            let a = one_execution(idx, start_kind, &ops, &mut Chooser::new(vec![]));
-            let b = one_execution(idx, start_kind, &ops, &mut Chooser::new(vec![]));
+            let a = one_execution(idx, start_kind, variant, &ops, &mut Chooser::new(vec![]));
+            let b = one_execution(idx, start_kind, variant, &ops, &mut Chooser::new(vec![]));
             if a.labels != b.labels || a.outcome_key != b.outcome_key {
                 so.machinery = Some(format!("nondeterministic replay for ops {ops:?}: {:?} vs {:?}", a.labels, b.labels));
                 return so;
@@ -208,7 +215,7 @@ fn main() {
                 deadline,
                 u64::MAX,
                 |ch| {
-                    let v = one_execution(idx, start_kind, &ops, ch);
+                    let v = one_execution(idx, start_kind, variant, &ops, ch);
                     (v, ch.diverged.clone())
                 },
                 |choices, (v, div)| {
@@ -254,7 +261,7 @@ fn main() {
                 run.violation(Violation {
                     signature: format!("{property}|step|{sig}|{}", ops.iter().map(kind).collect::<Vec<_>>().join("+")),
                     summary: format!("ops {ops:?} schedule {choices:?}: {msg}"),
-                    replay: json!({"ops": ops, "choices": choices, "start": start_kind}),
+                    replay: json!({"ops": ops, "choices": choices, "start": start_kind, "config": variant}),
                 });
             }
             if stats.capped {
